@@ -378,7 +378,8 @@ Record cfg := mkCfg { ver11 : bool; is_head : bool; conn_close : bool }.
 
 Record st := mkSt {
   s_code : N; s_reason : bytes; s_tbl : table; s_cookies : list bytes;
-  s_started : bool; s_chunked : bool; s_mute : bool; s_out : bytes }.
+  s_started : bool; s_chunked : bool; s_mute : bool; s_out : bytes;
+  s_saidclose : bool }.     (* the head that was written carried "Connection: close" (set by the server or the application) *)
 
 Definition version_bytes (c : cfg) : bytes := http1_prefix ++ [if ver11 c then 49 else 48].
 
@@ -401,6 +402,23 @@ Definition last_chunk : bytes := [48; 13; 10; 13; 10].
 
 Definition isnil {A} (l : list A) : bool := match l with [] => true | _ => false end.
 
+(** HTTPChannel.writeHeaders (repaired, fixes/C20-honour-connection-close.patch): a Connection header value with the
+    token "close" among its comma-separated, blank-trimmed, case-insensitive tokens *)
+Fixpoint split_comma (l : bytes) : list bytes :=
+  match l with
+  | [] => [[]]
+  | c :: r => if c =? 44 then [] :: split_comma r
+              else match split_comma r with
+                   | h :: t => (c :: h) :: t
+                   | [] => [[c]]
+                   end
+  end.
+
+Definition says_close (v : bytes) : bool :=
+  existsb (fun t => beq (map lower (trim_ows t)) close_word) (split_comma v).
+
+Definition conn_says_close (t : table) : bool := existsb says_close (tbl_get CONN_NAME t).
+
 Section WithResponses.
   (** http.RESPONSES.get(code, b"Unknown Status") — regenerated from the source into Gen.v *)
   Variable responses : N -> bytes.
@@ -408,7 +426,7 @@ Section WithResponses.
   Definition body_write (s : st) (d : bytes) : st :=
     if s_mute s then s
     else mkSt (s_code s) (s_reason s) (s_tbl s) (s_cookies s) (s_started s) (s_chunked s) (s_mute s)
-              (s_out s ++ (if s_chunked s then emit_chunk d else d)).
+              (s_out s ++ (if s_chunked s then emit_chunk d else d)) (s_saidclose s).
 
   (** the table that is serialised by the first write *)
   Definition chunked_mode (c : cfg) (s : st) : bool :=
@@ -427,17 +445,17 @@ Section WithResponses.
       let t := final_table c s in
       let s1 := mkSt (s_code s) (s_reason s) t (s_cookies s) true (chunked_mode c s)
                      (is_head c || nobody_code (s_code s))
-                     (s_out s ++ emit_head c (s_code s) (s_reason s) t) in
+                     (s_out s ++ emit_head c (s_code s) (s_reason s) t) (conn_says_close t) in
       body_write s1 d.
 
   Definition with_tbl (s : st) (t : table) : st :=
-    mkSt (s_code s) (s_reason s) t (s_cookies s) (s_started s) (s_chunked s) (s_mute s) (s_out s).
+    mkSt (s_code s) (s_reason s) t (s_cookies s) (s_started s) (s_chunked s) (s_mute s) (s_out s) (s_saidclose s).
 
   Definition step (c : cfg) (s : st) (o : op) : st * outcome :=
     match o with
     | SetCode code msg =>
         (mkSt code (match msg with Some m => m | None => responses code end) (s_tbl s) (s_cookies s)
-              (s_started s) (s_chunked s) (s_mute s) (s_out s), OOk)
+              (s_started s) (s_chunked s) (s_mute s) (s_out s) (s_saidclose s), OOk)
     | SetRaw name vals =>
         match enc_name name with
         | Bad e => (s, OErr e)
@@ -463,7 +481,7 @@ Section WithResponses.
         match cookie_bytes ck with
         | Bad e => (s, OErr e)
         | Good b => (mkSt (s_code s) (s_reason s) (s_tbl s) (s_cookies s ++ [b]) (s_started s) (s_chunked s)
-                          (s_mute s) (s_out s), OOk)
+                          (s_mute s) (s_out s) (s_saidclose s), OOk)
         end
     | Write d => (do_write c s d, OOk)
     end.
@@ -479,7 +497,7 @@ Section WithResponses.
   Definition finish (c : cfg) (s : st) : st :=
     let s1 := if s_started s then s else do_write c s [] in
     if s_chunked s1
-    then mkSt (s_code s1) (s_reason s1) (s_tbl s1) (s_cookies s1) true true (s_mute s1) (s_out s1 ++ last_chunk)
+    then mkSt (s_code s1) (s_reason s1) (s_tbl s1) (s_cookies s1) true true (s_mute s1) (s_out s1 ++ last_chunk) (s_saidclose s1)
     else s1.
 
   Definition write_all (c : cfg) (s : st) (ws : list bytes) : st := fold_left (do_write c) ws s.
@@ -488,9 +506,15 @@ Section WithResponses.
 
   (** a fresh Request after allHeadersReceived: checkPersistence may already have set Connection: close *)
   Definition init (c : cfg) : st :=
-    mkSt 200 OK_word (if ver11 c && conn_close c then [(CONN_NAME, [close_word])] else []) [] false false false [].
+    mkSt 200 OK_word (if ver11 c && conn_close c then [(CONN_NAME, [close_word])] else []) [] false false false [] false.
 
   Definition persistent (c : cfg) : bool := ver11 c && negb (conn_close c).
+
+  (** HTTPChannel.persistent when requestDone looks at it: the request allowed it and the head did not say close *)
+  Definition stays_open (c : cfg) (sf : st) : bool := persistent c && negb (s_saidclose sf).
+
+  Definition respond_open (c : cfg) (ops : list op) : bool :=
+    stays_open c (finish c (fst (run_ops c (init c) ops))).
 
   (** everything one request puts on the wire: its ops, then finish *)
   Definition respond (c : cfg) (ops : list op) : bytes * list outcome :=
@@ -502,7 +526,7 @@ Section WithResponses.
     | [] => ([], [], false)
     | (c, ops) :: r =>
         let (b, es) := respond c ops in
-        if persistent c
+        if respond_open c ops
         then let '(b', ess, closed) := run_conn r in (b ++ b', es :: ess, closed)
         else (b, [es], true)
     end.
@@ -535,6 +559,43 @@ Definition frames_consistently (c : cfg) (s : st) (ws : list bytes) : Prop :=
 Definition self_delimited (r : response) : bool :=
   match r_framing r with FClose => false | _ => true end.
 
+(** "line breaks in values replaced by spaces": every CRLF, lone CR or lone LF becomes one SP *)
+Fixpoint breaks_to_sp (v : bytes) : bytes :=
+  match v with
+  | [] => []
+  | c :: r =>
+      if c =? 13 then
+        32 :: match r with
+              | d :: r' => if d =? 10 then breaks_to_sp r' else breaks_to_sp r
+              | [] => []
+              end
+      else if c =? 10 then 32 :: breaks_to_sp r
+      else c :: breaks_to_sp r
+  end.
+
+(** what a recipient does with a Set-Cookie value: split it at every ";" *)
+Fixpoint split_semi (l : bytes) : list bytes :=
+  match l with
+  | [] => [[]]
+  | c :: r => if c =? 59 then [] :: split_semi r
+              else match split_semi r with
+                   | h :: t => (c :: h) :: t
+                   | [] => [[c]]
+                   end
+  end.
+
+(** name=value followed by attributes, each introduced by "; " *)
+Definition glue (first : bytes) (attrs : list bytes) : bytes := first ++ flat_map (fun p => 59 :: 32 :: p) attrs.
+
+Definition attr_labels : list bytes :=
+  [skipn 2 A_EXPIRES; skipn 2 A_DOMAIN; skipn 2 A_PATH; skipn 2 A_MAXAGE; skipn 2 A_COMMENT].
+
+(** the only attributes addCookie can produce *)
+Definition attr_form (p : bytes) : Prop :=
+  (exists label x, In label attr_labels /\ p = label ++ csan x) \/
+  p = skipn 2 A_SECURE \/ p = skipn 2 A_HTTPONLY \/
+  p = skipn 2 A_SAMESITE ++ w_lax \/ p = skipn 2 A_SAMESITE ++ w_strict.
+
 (** HTTPChannel.writeHeaders as it is at the pinned commit (reason phrase copied verbatim): finding F6 *)
 Definition emit_head_unrepaired (c : cfg) (code : N) (reason : bytes) (t : table) : bytes :=
   version_bytes c ++ [32] ++ to_dec code ++ [32] ++ reason ++ CRLF
@@ -564,7 +625,7 @@ Section Spec3.
   Fixpoint answered (qs : list request) : list request :=
     match qs with
     | [] => []
-    | q :: r => if persistent (q_cfg q) then q :: answered r else [q]
+    | q :: r => if respond_open responses (q_cfg q) (q_ops q) then q :: answered r else [q]
     end.
 End Spec3.
 
